@@ -140,10 +140,15 @@ class P(Prop):
         ("TracklibVerif.Props.C18", "TV.C18.path_realises", "T4: the accumulated cost of the returned coupling equals the reported score (each back-pointer designates a minimal predecessor)"),
         ("TracklibVerif.Props.C18", "TV.C18.weight_mono", "_p2weight(p) is monotone in the accumulated cost for p = 1, 2, inf over an ordered field"),
         ("TracklibVerif.Props.C18", "TV.C18.distance_symm", "_distance (dim 1, 2, 3) is symmetric over an ordered field, for any sqrt"),
+        ("TracklibVerif.Props.C18", "TV.C18.fdtw_equal", "T5: _fdtw (best-first search; the queue only assumed to return an entry of least priority) reports the same score as _dtw, for any accumulation monotone and inflationary on the distances at hand, 'big' above every candidate cost"),
+        ("TracklibVerif.Props.C18", "TV.C18.fdtw_path", "T5b: the matching returned by _fdtw (walk through the antecedent map A) is a monotone unit-step coupling whose accumulated cost is the score; pair/nb_links describe it; nobody left out"),
+        ("TracklibVerif.Props.C18", "TV.C18.distance_nonneg", "_distance is non-negative when sqrt is"),
+        ("TracklibVerif.Props.C18", "TV.C18.weight_infl", "_p2weight(p) is inflationary on non-negative distances for p = 1, 2, inf"),
+        ("TracklibVerif.Props.C18", "TV.C18.match_fdtw_correct", "match(track1, track2, FDTW, p, dim) on non-empty tracks over an ordered field with sqrt >= 0 and big above every candidate cost: succeeds, same score as mode DTW, S is a coupling whose cost is the score, pair/nb_links describe S, nobody left out"),
         ("TracklibVerif.Props.C18", "TV.C18.match_correct", "match(track1, track2, DTW | FRECHET, p, dim) on non-empty tracks over an ordered field: succeeds, score = optimum over couplings, S is a coupling whose cost is the score, pair/nb_links describe S, nobody left out, swapped call reports the same score"),
     ]
     partial = []
-    open_statements = ["T5 fdtw_equal (the best-first variant _fdtw reports the same score): not proved; covered by the correspondence (model of _fdtw with the heap contract) and by the oracle on every case",
+    open_statements = ["compare(): (score/nb_links)**(1/p) for finite p is modelled and compared but no theorem is stated about it (not part of the property); for FRECHET / p = inf compare() returns the score, covered by match_correct",
                        "IEEE rounding: the theorems are over a linear order / ordered field; on the float runs the oracle compares with relative tolerance 1e-9"]
     modelled = ("algo/comparison.py: match and compare (modes DTW, FDTW, FRECHET), _distance (dim 1/2/3), _p2weight (p = 1, 2, inf), "
                 "_dtw (distance matrix, first row/column, forward step, predecessor encoding, backward walk), _fdtw + _update_node "
